@@ -166,7 +166,7 @@ func stage(b *c18Builder, name string, args ...Expr) AppStage {
 func hx(s string) Expr { return sl(hex.EncodeToString([]byte(s))) }
 
 func checkC18(c *Check) {
-	c.Rule = "probe programs installed in the sandbox record argc/argv (hex) per invocation, act as tagged filters and produce requested output/status; cells: argument value (C08 payloads, every printable character, blanks, empty) x position (sole, first, last, middle) x form (literal, variable, run-time value, concatenation, call result), empty strings at every position of 0-5 arguments, program named by identifier or by string literal, pipelines of 1-3 stages with tagged filters, capture of outputs with 0-3 trailing newlines and inner blank lines, statuses {0,1,2,7,126,127,255} on last and non-last stages, statement versus capture form, inside functions; oracle = model of the probes (expected argv logs as files, expected stdout and captured value/status) plus the sandbox snapshot (a redirect from data shows as a stray file). Non-trivial = at least one command executed; distinct = SHA-256 of source + files"
+	c.Rule = "probe programs installed in the sandbox record argc/argv (hex) per invocation, act as tagged filters and produce requested output/status; cells: argument value (C08 payloads, every printable character, blanks, empty) x position (sole, first, last, middle) x form (literal, variable, run-time value, concatenation, call result), glob patterns with matching files present in the working directory, empty strings at every position of 0-5 arguments, program named by identifier or by string literal, pipelines of 1-3 stages with tagged filters, capture of outputs with 0-3 trailing newlines and inner blank lines, statuses {0,1,2,7,126,127,255} on last and non-last stages, statement versus capture form, inside functions; oracle = model of the probes (expected argv logs as files, expected stdout and captured value/status) plus the sandbox snapshot (a redirect from data shows as a stray file). Non-trivial = at least one command executed; distinct = SHA-256 of source + files"
 	c.Assumptions = []string{"literal spellings of \" $ ` \\ avoided (C08 finding); such values arrive at run time", "exit status of a pipeline = status of its last command"}
 	runProbes(c, bashProbeJudge)
 	nontrivial := func(r Result) bool { return r.Features["appcall"]+r.Features["appcallstmt"] > 0 }
@@ -222,6 +222,37 @@ func checkC18(c *Check) {
 				}
 				key := fmt.Sprintf("arg/%s/%s/%s", vn, pos, form)
 				add(b.finish(key, ExprStmt{AppCall{[]AppStage{stage(b, "p_rec", args...)}}}, pr(sl("done"))))
+			}
+		}
+	}
+	// glob patterns that DO match: files a, b, ab, c.txt, k1 exist in the working directory, so an argument
+	// that reaches the shell unquoted changes value and count
+	for gi, g := range []string{"[ab]", "?", "*", "a*", "[a-c]", "?b", "{a,b}", "~", "a\\b", "^a", "[!a]", "*.txt", "./*", "[ab]*", "k?", "[[:alpha:]]", "a?", "\\*"} {
+		for _, form := range forms {
+			for _, pos := range []string{"sole", "middle"} {
+				b := newC18()
+				for _, fnm := range []string{"a", "b", "ab", "c.txt", "k1"} {
+					b.pre[fnm] = "content of " + fnm + "\n"
+				}
+				a, ok := b.arg(g, form)
+				if !ok {
+					continue
+				}
+				args := []Expr{a}
+				if pos == "middle" {
+					args = []Expr{sl("k1"), a, sl("k3")}
+				}
+				add(b.finish(fmt.Sprintf("glob-with-matches/%d/%s/%s", gi, pos, form), ExprStmt{AppCall{[]AppStage{stage(b, "p_rec", args...)}}}, pr(sl("done"))))
+				// the same in a captured two-stage chain inside a function
+				if pos == "sole" {
+					b2 := newC18()
+					for _, fnm := range []string{"a", "b", "ab", "c.txt", "k1"} {
+						b2.pre[fnm] = "content of " + fnm + "\n"
+					}
+					a2, _ := b2.arg(g, form)
+					body := []Stmt{VarDecl{Names: []string{"o", "e", "st"}, Short: true, Values: []Expr{AppCall{[]AppStage{stage(b2, "p_rec", a2), stage(b2, "p_rec2", sl("second"), a2)}}}}, pr(framed(vr("o")), vr("st"))}
+					add(b2.finish(fmt.Sprintf("glob-with-matches/%d/chain-in-func/%s", gi, form), fn("run", nil, nil, body...), callS("run")))
+				}
 			}
 		}
 	}
